@@ -155,6 +155,7 @@ class Zooming(Algorithm):
                 self.partition.make_children(parent=parent, newlayer=False)
 
             children_list = parent.get_children()
+            arm_assigned = False  # the best arm is handed over to exactly one child
             for child in children_list:
                 child_domain = child.get_domain()
                 point = self.best_arm.get_point()
@@ -163,7 +164,8 @@ class Zooming(Algorithm):
 
                 for dim in range(len(child_domain)):
                     if (
-                        point[dim] < child_domain[dim][0]
+                        arm_assigned
+                        or point[dim] < child_domain[dim][0]
                         or point[dim] > child_domain[dim][1]
                     ):
                         self.make_active(
@@ -176,6 +178,7 @@ class Zooming(Algorithm):
                     self.active_points[
                         self.best_arm
                     ] = child  # else, update the active arm to refer to the child node
+                    arm_assigned = True
 
     def get_last_point(self):
         """
